@@ -45,13 +45,13 @@ PROPS = {
               'conflict; follower commit only on verified paths, monotone and bounded by the leader commit.',
               ['Log Matching as a global invariant'],
               'must-facts with alias/congruence closure, CFG dominance, small-domain arithmetic'),
-    'C05': _p(['R-timer-reset', 'R-heartbeat', 'R-vote-refusal-justified', 'R-sender-total', 'R-chunk-length', 'R-reply-exhaustive', 'R-disposition'],
+    'C05': _p(['R-timer-reset', 'R-heartbeat', 'R-vote-refusal-justified', 'R-sender-total', 'R-chunk-length', 'R-reply-exhaustive', 'R-disposition', 'R-serializer-idle'],
               'progress obligations only: election deadline re-armed by accepted append_entries / grant / candidacy and candidacy guarded by the deadline; every '
               'iteration of the per-follower send loop sends; next index moved past a finished snapshot; every (reset, success) reply combination is acted on and refreshes '
               'the response time; no dequeued command is dropped silently.',
               ['convergence itself: leader election within bounded timeouts, catch-up, equality of replicas (liveness in virtual time)'],
               'CFG reachability (wedge detection), reply-combination table agreement'),
-    'C06': _p(['R-durable-before-ack', 'R-ack-after-store', 'R-dump-before-trim', 'R-restart-keeps-journal', 'R-log-owners', 'R-head-drop-atomic', 'R-write-then-publish', 'R-tail-drop-monotone', 'R-commit-persisted-value', 'R-dump-atomic'],
+    'C06': _p(['R-durable-before-ack', 'R-ack-after-store', 'R-dump-before-trim', 'R-restart-keeps-journal', 'R-log-owners', 'R-head-drop-atomic', 'R-write-then-publish', 'R-tail-drop-monotone', 'R-offset-coherent', 'R-commit-persisted-value', 'R-dump-atomic'],
               'positive ack only after the journal add that reaches the file write and publish; serializer SUCCESS (which triggers the trim) only after the atomic rename / clean '
               'child exit; at start-up the journal is replaced only when it does not contain the dump position and a kept journal is trimmed exactly to it; head drop atomicity.',
               ['equality of the rebuilt object with a replay of the committed prefix', 'kill points inside mmap stores'],
@@ -60,13 +60,13 @@ PROPS = {
               'whether currentTerm and votedFor ever reach durable storage before a vote leaves the node and are reloaded at start (decided negatively on this tree: known finding).',
               ['nothing further: the mechanism the property needs is structurally absent'],
               'def-use / effect analysis from vote events to durable sinks'),
-    'C08': _p(['R-write-then-publish', 'R-record-layout', 'R-bounded-write', 'R-meta-atomic', 'R-head-drop-atomic', 'R-tail-drop-monotone', 'R-journal-siblings'],
+    'C08': _p(['R-write-then-publish', 'R-record-layout', 'R-bounded-write', 'R-meta-atomic', 'R-head-drop-atomic', 'R-tail-drop-monotone', 'R-offset-coherent', 'R-journal-siblings'],
               'record write precedes publish and the published offset is the running end; reader / writer / tail-drop byte layout constants agree with the struct formats; '
               'mmap store only when offset+size <= capacity is established; .meta only replaced via tmp+move; tail drop walks backwards, counts before cutting the mirror, '
               'stores and publishes the final offset; sibling journals implement the same interface and every mutator updates mirror and file.',
               ['equality with an in-memory list for all operation sequences (byte-level round trip)', 'head drop kill-safety (known finding)'],
               'ordering on CFGs, must-facts for the bounded write, table agreement against struct.calcsize, sibling cross-check'),
-    'C09': _p(['R-payload-complete', 'R-version-in-payload', 'R-no-field-leak', 'R-snapshot-point', 'R-dump-atomic', 'R-version-pairing', 'R-transfer-restart', 'R-transfer-flags', 'R-dump-before-trim'],
+    'C09': _p(['R-payload-complete', 'R-version-in-payload', 'R-no-field-leak', 'R-snapshot-point', 'R-dump-atomic', 'R-version-pairing', 'R-transfer-restart', 'R-transfer-flags', 'R-dump-before-trim', 'R-serializer-idle'],
               'payload components and the positions the loader reads them from; enabled version inside the payload in every serializer mode; no internal attribute leaks into the payload; '
               'no apply between fixing the position and serializing; dump only ever renamed into place; name table rebuilt for the enabled version; interrupted transfers restart.',
               ['pickle round-trip equality of user state', 'chunk reassembly under every interruption pattern'],
